@@ -246,7 +246,23 @@ func tparmBody(line string) h.Result {
 }
 
 // execTParm runs the body under a 5 s watchdog (a panic in the worker is reported the way the driver reports one).
+// tiHangs: calls of this process that never returned.  Each of them is a goroutine spinning at full speed for the rest of the
+// process; once a handful have been reported (each a concrete finding) the remaining cases are not run any more.
+var tiHangs int32
+
+const tiHangBudget = 5
+
+func tiHangSkip() (h.Result, bool) {
+	if atomic.LoadInt32(&tiHangs) >= tiHangBudget {
+		return h.Result{Obs: "SKIP hang budget exhausted: not run", Tags: []string{"hang-budget-exhausted"}}, true
+	}
+	return h.Result{}, false
+}
+
 func execTParm(line string) h.Result {
+	if r, skip := tiHangSkip(); skip {
+		return r
+	}
 	ch := make(chan h.Result, 1)
 	go func() {
 		defer func() {
@@ -269,6 +285,7 @@ func execTParm(line string) h.Result {
 	case r := <-ch:
 		return r
 	case <-tm.C:
+		atomic.AddInt32(&tiHangs, 1)
 		return h.Result{Obs: "HANG", Findings: []h.Finding{{Class: "hang", Msg: "TParm did not return within 5s"}}, Nontrivial: true, Tags: []string{"hang"}}
 	}
 }
@@ -971,6 +988,9 @@ func tiHistorySuffix(calls []string) string {
 
 // tiWatchdog runs body under a 5 s watchdog (a panic in the worker is reported the way the driver reports one).
 func tiWatchdog(what string, body func() h.Result) h.Result {
+	if r, skip := tiHangSkip(); skip {
+		return r
+	}
 	ch := make(chan h.Result, 1)
 	go func() {
 		defer func() {
@@ -993,6 +1013,7 @@ func tiWatchdog(what string, body func() h.Result) h.Result {
 	case r := <-ch:
 		return r
 	case <-tm.C:
+		atomic.AddInt32(&tiHangs, 1)
 		return h.Result{Obs: "HANG", Findings: []h.Finding{{Class: "hang", Msg: what + " did not return within 5s"}}, Nontrivial: true, Tags: []string{"hang"}}
 	}
 }
